@@ -141,11 +141,12 @@ def proof_part(rep, prop):
                               "# #print axioms of every theorem in Props/%s.lean; skeleton_matches (T4) is decided in K/Skeleton.lean"
                               % (" ".join(TARGETS), prop, prop))
     rep.cov["trusted_base"] = list(common.TRUSTED_COMMON) + TRUSTED
-    if not logs.get("ok", True) and "Skeleton" in logs.get("log", "") and facts_hash() not in (common.repo_hash(), None):
+    skel_err = any("error" in l and "K/Skeleton.lean" in l for l in logs.get("log", "").splitlines())
+    if not logs.get("ok", True) and skel_err and facts_hash() not in (common.repo_hash(), None):
         rep.violations = rep.violations[:before]
         rep.violation("T4 not evaluated: Generated/ConcFacts.lean belongs to another tree (%s, under check: %s)" % (
             facts_hash(), common.repo_hash()), {"fact": "stale ConcFacts.lean"}, False)
-    elif not logs.get("ok", True) and "Skeleton" in logs.get("log", ""):
+    elif not logs.get("ok", True) and skel_err:
         # rewrite the generic message into the specific one
         gen, exp = _pairs(FACTS), _pairs(SKELETON)
         diff = [n for n in sorted(set(gen) | set(exp)) if gen.get(n) != exp.get(n)]
@@ -196,6 +197,10 @@ def sched_part(rep, info, systems, prop, tier=None, search_only=False, timeout=3
     if search_only:
         shutil.rmtree(out, ignore_errors=True)
         return found
+    if summ.get("unmodelled_executions"):
+        # two calls of one generated Do in flight: checked by the observable clauses only (outside the single-call LTS)
+        rep.cov["unmodelled_executions"] = rep.cov.get("unmodelled_executions", 0) + summ["unmodelled_executions"]
+        rep.cov["evaluations"] += summ["unmodelled_executions"]
     # replay on the Lean LTS
     t = time.time()
     with open(os.path.join(out, "ops.txt")) as fin, open(os.path.join(out, "model.txt"), "w") as fout:
